@@ -2,8 +2,8 @@
 
 use serde_json::Value;
 
-use crate::fw::{Batch, CheckSpec, Tier, drive};
-use crate::{Args, eng_codec, eng_disk, eng_hist, eng_par, eng_rdf, eng_sched, eng_snap, eng_store, eng_twin, eng_txm, eng_vec};
+use crate::fw::{Batch, CheckSpec, Finding, Tier, drive};
+use crate::{Args, eng_codec, eng_disk, eng_hist, eng_par, eng_rdf, eng_sched, eng_snap, eng_spill, eng_store, eng_twin, eng_txm, eng_vec};
 
 const REAL_TXM: &[&str] = &["grafeo_engine::transaction::TransactionManager (all of manager.rs)"];
 
@@ -201,7 +201,7 @@ fn c20(args: &Args) -> i32 {
         ],
         unchecked: vec!["lock-free internals of dashmap/crossbeam are not explored at their own atomic granularity".into()],
     };
-    let batch = Batch { spec, tier: args.tier, seed: args.seed, runs: runs(args, 1_500, 30_000), workers: args.workers };
+    let batch = Batch { spec, tier: args.tier, seed: args.seed, runs: runs(args, 2_000, 30_000), workers: args.workers };
     drive(
         batch,
         &|seed, i| {
@@ -368,7 +368,7 @@ fn c10(args: &Args) -> i32 {
             "plan-cache eviction (capacity 1000 is never reached by these histories)".into(),
         ],
     };
-    let batch = Batch { spec, tier: args.tier, seed: args.seed, runs: runs(args, 8_000, 500_000), workers: args.workers };
+    let batch = Batch { spec, tier: args.tier, seed: args.seed, runs: runs(args, 80_000, 2_000_000), workers: args.workers };
     drive(batch, &|seed, _i| eng_twin::run_one(seed, thorough), Some(&eng_twin::minimise), &mut |_| {})
 }
 
@@ -379,19 +379,25 @@ fn c17(args: &Args) -> i32 {
         property: "C17",
         check_name: "C17",
         level: "exploration",
-        engine: "PAR",
-        rule: format!("one generated table (0, 1, 1023, 1024, 1025, 2048, 3000 or 4097 rows of two integer columns with per-run value domains, duplicates and nulls) and one operator chain (passthrough, filter, sort, distinct, filter+distinct, global aggregate count/sum/min/max, grouped aggregate) run by ParallelPipeline with 1-4 workers, chunk size 1/7/64/1000/2048 and 1024-row morsels, under {n_sched} schedules (random, PCT 2/3): the pipeline's own worker threads run as simulated threads, so which worker gets or steals which morsel and when partial results are appended is the scheduler's choice. Output (partials of breaker chains merged the way the breaker defines) must equal the brute-force sequential evaluation; rows_processed and morsel count must match. Non-trivial = more than one morsel and more than one worker; distinct = distinct scenarios"),
-        real: vec!["grafeo_core::execution::parallel::{ParallelPipeline, MorselScheduler, WorkerHandle, ParallelVectorSource}", "push operators Filter/Sort/Distinct/Aggregate", "crossbeam deque (real code, sequentially consistent interleavings only)"],
-        stub: vec!["std::thread::scope in pipeline.rs (workers become shuttle threads)", "parking_lot blocking paths", "std atomics in scheduler.rs/pipeline.rs (hooked: a scheduling point before each access)"],
+        engine: "PAR+SPILL",
+        rule: format!("(PAR, 1 run in 10) one generated table (0, 1, 1023, 1024, 1025, 2048, 3000 or 4097 rows of two integer columns with per-run value domains, duplicates and nulls) and one operator chain (passthrough, filter, sort, distinct, filter+distinct, global aggregate count/sum/min/max, grouped aggregate) run by ParallelPipeline with 1-4 workers, chunk size 1/7/64/1000/2048 and 1024-row morsels, under {n_sched} schedules (random, PCT 2/3): the pipeline's own worker threads run as simulated threads, so which worker gets or steals which morsel and when partial results are appended is the scheduler's choice. Output (partials of breaker chains merged the way the breaker defines) must equal the brute-force sequential evaluation; rows_processed and morsel count must match. Non-trivial = more than one morsel and more than one worker. (SPILL, 9 runs in 10) one generated table of three columns (integers with nulls, group key, strings; 0-900 rows, 0-3000 in the thorough tier), one spilling operator (SpillableSortPushOperator with 1-2 keys, directions and null orders; SpillableAggregatePushOperator grouped by one or two columns with count/sum/min/max), one memory budget (spill threshold from 1 row to never), one cap on the spill files' write buffer (1 byte to 64 KiB) and one fault plan for the spill files (none; the n-th file operation fails hard, once or from then on, as a generic error or as disk full; the n-th read/write returns EINTR once). The answer must equal the non-spilling operator's (sort: same key sequence and same multiset of rows; aggregate: same groups, also compared with a brute-force model); a hard fault may turn into an error but never into a panic or a different answer; EINTR must be invisible; afterwards the spill directory is empty and the manager's accounting is zero. Non-trivial = the run touched spill files; distinct = distinct scenarios"),
+        real: vec!["grafeo_core::execution::parallel::{ParallelPipeline, MorselScheduler, WorkerHandle, ParallelVectorSource}", "push operators Filter/Sort/Distinct/Aggregate", "crossbeam deque (real code, sequentially consistent interleavings only)", "SpillableSortPushOperator, SpillableAggregatePushOperator, ExternalSort, PartitionedState, SpillManager, SpillFile/SpillFileReader and their serializer (real files on tmpfs through the file seam)"],
+        stub: vec!["std::thread::scope in pipeline.rs (workers become shuttle threads)", "parking_lot blocking paths", "std atomics in scheduler.rs/pipeline.rs (hooked: a scheduling point before each access)", "results of the spill files' create/open/read/write/remove calls when the fault plan says so"],
         assumptions: vec!["morsel size is the pressure-level minimum of 1024 rows (config.morsel_size is ignored by effective_morsel_size)".into()],
         unchecked: vec![
             "pull-based vs push-based equality, chunk/morsel-size independence of a single-threaded run, merge.rs/fold.rs as functions of their partial inputs: pure functions of (table, chain, configuration), not simulation targets".into(),
-            "spilling operators and ExternalSort (async tokio file I/O; no simulated runtime available)".into(),
+            "the async spill manager / async spill files (tokio file I/O; no simulated runtime available); spilling joins do not exist in this tree".into(),
             "ordering of a parallel Sort's output: execute() returns per-worker partials without a merge phase, only the multiset is judged".into(),
         ],
     };
-    let batch = Batch { spec, tier: args.tier, seed: args.seed, runs: runs(args, 1_200, 60_000), workers: args.workers };
-    drive(batch, &|seed, _i| eng_par::run_one(seed, n_sched), None, &mut |_| {})
+    let batch = Batch { spec, tier: args.tier, seed: args.seed, runs: runs(args, 12_000, 600_000), workers: args.workers };
+    let minimise = |f: &Finding| -> Finding { if f.replay["engine"] == "SPILL" { eng_spill::minimise(f) } else { f.clone() } };
+    drive(
+        batch,
+        &|seed, i| if i % 10 == 0 { eng_par::run_one(seed, n_sched) } else { eng_spill::run_one(seed, i, thorough) },
+        Some(&minimise),
+        &mut |_| {},
+    )
 }
 
 pub fn replay_file(path: &str) -> i32 {
@@ -424,6 +430,7 @@ pub fn replay_file(path: &str) -> i32 {
         Some("VEC") => eng_vec::replay(rep),
         Some("SNAP") => eng_snap::replay(rep),
         Some("CODEC") => eng_codec::replay(rep),
+        Some("SPILL") => eng_spill::replay(rep),
         other => {
             eprintln!("harness error: unknown engine {other:?} in {path}");
             return 2;
